@@ -5,6 +5,8 @@
 //! and tolerances. Port read-back through the real machine.
 
 use crate::machine::*;
+#[allow(unused_imports)]
+use crate::machine::{drain_audio, run_frames, write_mem, Emu};
 use crate::prng::{Fnv, Rng};
 use crate::runner::{Fail, Property, RunCtx, Tier};
 use crate::scenario::Scenario;
@@ -158,7 +160,7 @@ impl Property for C18 {
         ]
     }
     fn expected_probes(&self) -> Vec<&'static str> {
-        vec!["pitch", "pitch_tp0", "noise", "envelope", "envelope_period_measured", "ladder", "gating", "panning", "bound", "readback", "rate_below_27k", "ym_chip"]
+        vec!["pitch", "pitch_tp0", "noise", "envelope", "envelope_period_measured", "ladder", "gating", "panning", "bound", "readback", "rate_below_27k", "ym_chip", "order_independence", "machine_retrigger"]
     }
     fn time_unit_hz(&self) -> f64 {
         44_100.0
@@ -166,7 +168,7 @@ impl Property for C18 {
 
     fn gen(&self, rng: &mut Rng, _tier: Tier, idx: u64) -> Scenario {
         let mut sc = Scenario::new();
-        sc.set("feature", (idx % 8) as i64);
+        sc.set("feature", (idx % 10) as i64);
         sc.set("ym", rng.bool() as i64);
         sc.set("mode", rng.range(0, 6));
         let rate = if rng.bool() { *rng.pick(&super::c19::RATES) as i64 } else { rng.range(8000, 384000) };
@@ -174,7 +176,7 @@ impl Property for C18 {
         sc.set("seed", (rng.next() >> 8) as i64);
         sc.set("ch", rng.range(0, 2));
         sc.set("garbage", rng.range(0, 30));
-        match idx % 8 {
+        match idx % 10 {
             0 => {
                 let tp = match rng.below(6) {
                     0 => 0,
@@ -201,7 +203,7 @@ impl Property for C18 {
     }
 
     fn exec(&self, sc: &Scenario, ctx: &mut RunCtx) -> Result<(), Fail> {
-        let feature = sc.get("feature").clamp(0, 7);
+        let feature = sc.get("feature").clamp(0, 9);
         let ym = sc.get("ym") != 0;
         let mode = sc.get("mode").clamp(0, 6);
         let rate = sc.get("rate").clamp(8000, 384000) as usize;
@@ -229,6 +231,124 @@ impl Property for C18 {
             h.u8(ym as u8);
             ctx.cover(h.get());
         };
+        if feature == 8 {
+            // ---- order independence: registers are latches. Two chips with identical histories are
+            // programmed with the same final register file, one in ascending order, one in a seeded
+            // permutation with redundant re-writes of the same values (R13, whose write restarts the
+            // envelope, is written once and last in both). The streams must be bit-identical.
+            ctx.probe("order_independence");
+            let mut a = Chip::new(ym, mode, rate);
+            let mut b = Chip::new(ym, mode, rate);
+            let garbage = sc.get("garbage").clamp(0, 200) as usize;
+            let mut ga = rng.clone();
+            let mut gb = rng.clone();
+            a.garbage(&mut ga, garbage);
+            b.garbage(&mut gb, garbage);
+            let _ = rng.next();
+            let mut regs = [0u8; 14];
+            let mut r3 = Rng::new(sc.get("seed") as u64 ^ 0x0DE5);
+            r3.fill(&mut regs);
+            regs[7] &= 0x3F;
+            for r in 0..13u8 {
+                a.w(r, regs[r as usize]);
+            }
+            let mut order: Vec<u8> = (0..13).collect();
+            for i in (1..order.len()).rev() {
+                let j = r3.below(i as u64 + 1) as usize;
+                order.swap(i, j);
+            }
+            for &r in &order {
+                b.w(r, regs[r as usize]);
+            }
+            // redundant re-writes of values already in place (idempotent on a real chip)
+            for _ in 0..r3.below(6) {
+                let r = r3.below(13) as u8;
+                b.w(r, regs[r as usize]);
+            }
+            a.w(13, regs[13]);
+            b.w(13, regs[13]);
+            let n = 3000;
+            let (mut oa, mut ob) = (vec![], vec![]);
+            a.gen(n, Some(&mut oa));
+            b.gen(n, Some(&mut ob));
+            if let Some(i) = oa.iter().zip(ob.iter()).position(|(x, y)| x.0.to_bits() != y.0.to_bits() || x.1.to_bits() != y.1.to_bits()) {
+                return Err(Fail::new(
+                    "C18.order_dependence",
+                    &format!("chip={}", if ym { "ym" } else { "ay" }),
+                    format!("the same register contents {:02X?} written in ascending order and in the order {:?} (plus idempotent re-writes) give different signals from sample {} on", regs, order, i),
+                ));
+            }
+            cover(ctx, 0);
+            ctx.units += 1;
+            return Ok(());
+        }
+        if feature == 9 {
+            // ---- through the real machine: every write to R13 restarts the envelope, also with the value
+            // it already holds; re-writing any other register with its own value changes nothing
+            ctx.probe("machine_retrigger");
+            let cfg = MCfg { m128: rng.bool(), ay: true, beeper: false, rate: 44100, ..Default::default() };
+            let mut e = new_emu(&cfg);
+            write_mem(&mut e, 0x8000, &[0xF3, 0x18, 0xFE]);
+            let mut st = crate::cpustate::CpuState::default();
+            st.pc = 0x8000;
+            st.sp = 0x8FF0;
+            st.to_impl(e.verif_cpu());
+            let shape = *rng.pick(&[0u8, 1, 2, 3, 9, 4, 15]); // one-shot shapes ending at zero
+            let ep: u16 = 200 + (rng.u16() % 200); // ramp of 29..58 ms
+            let ch = ch as u8;
+            let wr = |e: &mut Emu, r: u8, v: u8| {
+                e.verif_bus().write_io(0xFFFD, r);
+                e.verif_bus().write_io(0xBFFD, v);
+            };
+            wr(&mut e, 7, 0x3F);
+            wr(&mut e, 8 + ch, 0x10);
+            wr(&mut e, 11, ep as u8);
+            wr(&mut e, 12, (ep >> 8) as u8);
+            let energy = |e: &mut Emu, frames: usize| -> Result<f64, Fail> {
+                let mut v = vec![];
+                drain_audio(e, &mut v);
+                v.clear();
+                let mut total = 0.0;
+                for _ in 0..frames {
+                    run_frames(e, 1).map_err(|x| Fail::new("C18.run", "", x))?;
+                    drain_audio(e, &mut v);
+                }
+                let (lo, hi) = v.iter().fold((f32::MAX, f32::MIN), |a, s| (a.0.min(s.0.max(s.1)), a.1.max(s.0.max(s.1))));
+                total += (hi - lo) as f64;
+                Ok(total)
+            };
+            wr(&mut e, 13, shape);
+            let e1 = energy(&mut e, 2)?;
+            let quiet = energy(&mut e, 8)?;
+            let _ = quiet;
+            let tail = energy(&mut e, 2)?;
+            // idempotent re-writes of the other registers: still silent
+            wr(&mut e, 7, 0x3F);
+            wr(&mut e, 8 + ch, 0x10);
+            wr(&mut e, 11, ep as u8);
+            let still = energy(&mut e, 2)?;
+            // same shape value again: must burst again
+            wr(&mut e, 13, shape);
+            let e2 = energy(&mut e, 2)?;
+            if e1 < 0.05 || tail > e1 * 0.2 {
+                // the first burst itself is the envelope clause (feature 2); only judge when it is sane
+                cover(ctx, 1);
+                return Ok(());
+            }
+            if still > e1 * 0.2 {
+                return Err(Fail::new("C18.rewrite_not_idempotent", "", format!("re-writing R7, R{}, R11 with the values they already hold made the silent channel audible (swing {:.3} vs burst {:.3})", 8 + ch, still, e1)));
+            }
+            if e2 < e1 * 0.5 {
+                return Err(Fail::new(
+                    "C18.envelope_retrigger",
+                    &format!("shape={}", shape),
+                    format!("writing envelope shape {} to R13 a second time (same value) through the ports did not restart the envelope: swing of the first burst {:.3}, after the second write {:.3}", shape, e1, e2),
+                ));
+            }
+            cover(ctx, shape as u64);
+            ctx.units += 1;
+            return Ok(());
+        }
         if feature == 7 {
             // ---- read-back through the real machine ports
             ctx.probe("readback");
